@@ -4,7 +4,7 @@ from .base import *
 from .world import world_of, EVENT
 from .task import rt, machine_ok, task_ok, TS
 from .cluster import CV, cluster_invariant, same_list
-from .buffer import hot, cold, obs_ok, size_of, slot, _add_event_ens
+from .buffer import hot, cold, obs_ok, size_of, slot, _add_event_ens, _add_event_ghost, events_inv, unlogged
 
 SW = world_of('scheduler')
 RS = lambda m: enum_code('RunStatus', m)
@@ -12,7 +12,9 @@ WS = lambda m: enum_code('WorkflowStatus', m)
 SS = lambda m: enum_code('ScheduleStatus', m)
 
 REG.contract('Scheduler._add_event', world=SW, params={'observation': 'Observation', 'resource': 'str', 'event': 'str'},
-             ensures=_add_event_ens('scheduler'), modifies=['self.events'], props=['C13'])
+             ensures=_add_event_ens('scheduler'), ghost=_add_event_ghost('scheduler'), modifies=['self.events', 'ghost:unlogged_scheduler'],
+             props=['C13'])
+REG.invariants['Scheduler'] = events_inv('scheduler')
 
 REG.contract('Scheduler.is_idle', world=SW,
              ensures=lambda c: [('C19-idle-iff-no-observation-queued', c.result.t == (c.o.self.observation_queue.n == 0))],
@@ -341,7 +343,7 @@ REG.contract('Scheduler._generate_current_schedule', world=SW,
                                  ('observation-in-buffer-0', obs_ok(c.o, c.o.observation.t))],
              ensures=_gcs_ens,
              result='tuple:WorkflowPlan,dict:Task->ref:Machine,set:Task,bool',
-             modifies=['self.algtime', 'self.schedule_status', 'self.events', 'self.observation_queue', 'self.cluster._resources.available',
+             modifies=['self.algtime', 'self.schedule_status', 'self.events', 'ghost:unlogged_scheduler', 'ghost:unlogged_buffer', 'self.observation_queue', 'self.cluster._resources.available',
                        'self.cluster._resources.idle', 'self.cluster.num_provisioned_obs', 'heap:WorkflowPlan.status', 'arg:task_pool',
                        'self.buffer.events', 'self.buffer.hot.0.current_capacity', 'self.buffer.hot.0.observations.finished',
                        'self.buffer.hot.0.observations.scheduled'],
@@ -381,7 +383,7 @@ REG.contract('Scheduler.allocate_tasks', world=SW, params={'observation': 'Obser
              yields={0: _at_carried, 1: _at_carried, 2: lambda c: [('one-step-wait', c.n['_ydelay'].t == 1)]},
              step=_at_step,
              raises={'RuntimeError': dict(when=None, unchanged=False), 'KeyError': dict(when=None, unchanged=False)},
-             modifies=['self.algtime', 'self.schedule_status', 'self.delay_offset', 'self.events', 'self.observation_queue',
+             modifies=['self.algtime', 'self.schedule_status', 'self.delay_offset', 'self.events', 'ghost:unlogged_scheduler', 'ghost:unlogged_buffer', 'self.observation_queue',
                        'self.cluster._resources.available', 'self.cluster._resources.idle', 'self.cluster.num_provisioned_obs',
                        'heap:WorkflowPlan.status', 'heap:WorkflowPlan.ast', 'heap:WorkflowPlan.tasks', 'heap:Task.workflow_offset',
                        'heap:Task.task_status', 'heap:Task.allocated_machine_id', 'heap:Task.delay_flag', 'heap:Task.delay_offset',
@@ -416,7 +418,7 @@ REG.contract('Scheduler.run', world=SW, locals_types={'obs': 'any', 'ret': 'proc
                                        hot(c.n.self.buffer).observations['stored'].count(o) > 0, o > 0)))]},
              step=_srun_step,
              raises={'RuntimeError': dict(when=lambda c: c.o.self.status.t != enum_code('SchedulerStatus', 'RUNNING'))},
-             modifies=['self.events', 'self.observation_queue', 'self.buffer.hot.0.observations.stored',
+             modifies=['self.events', 'ghost:unlogged_scheduler', 'self.observation_queue', 'self.buffer.hot.0.observations.stored',
                        'self.buffer.hot.0.observations.scheduled', 'heap:Observation.plan'],
              props=['C04', 'C13'])
 
@@ -428,5 +430,10 @@ def _sched_to_df(c):
             ('C12-delay-offset', r['delay_offset'].t == s.delay_offset.t)]
 
 
-REG.contract('Scheduler.to_df', world=SW, ensures=_sched_to_df, props=['C12'])
+REG.contract('Scheduler.to_df', world=SW, ensures=_sched_to_df, props=['C12'],
+             result='frame:scheduler_observation_queue=num;schedule_status=str;delay_offset=num')
 REG.loop('Scheduler.to_df', 0, inv=lambda c: [], modifies_locals=['key', 'value'], props=['C12'])
+
+REG.contract('Scheduler.start', world=SW,
+             ensures=lambda c: [('running', c.n.self.status.t == enum_code('SchedulerStatus', 'RUNNING'))],
+             result='enum:SchedulerStatus', modifies=['self.status'], props=['C11'])
